@@ -157,16 +157,27 @@ ARGV = {
     "t": [["--t=[[1,2],3]"]],
     "obj": [["--obj.tags+=4"], ["--obj=Base"], ["--obj=Sub1", "--obj.child=Base"]],
     "objs": [["--objs+=Sub1", '--objs.opts={"a":2}']],
-    "dd": [["--dd.u=3"]],
+    "dd": [["--dd.u=3"], ["--dd.u=x"]],
+    "dg": [["--dg.u=4"], ["--dg.w=[5]"], ["--dg.u=x"]],
     "x": [['--x={"class_path":"dsim.simtypes.Base"}']],
     "n": [["--n", "1", "2"]],
     "inner": [["--inner", "A/B/inner.yaml"], ["--inner.v=[3]"]],
     "holder": [["--holder=Holder"], ["--holder=Holder", "--holder.inner=Base"]],
-    "model": [["--model.base=Sub1"]],
+    "model": [["--model.base=Sub1"], ["--model.name=z"]],
     "p": [["--p=A/pa.txt"]],
     "sub": [["fit"], ["fit", "--lr=0.3", "--tags+=4"], ["test", "--n=3"], ["test", "--ck=Base", "--ck.tags+=2"], ["fit", "--lr=bad"], ["nope"]],
 }
-KINDS = ["parse_object", "parse_object", "parse_object_ns", "parse_object_base", "parse_args", "parse_args_ns", "parse_args_nodefaults", "parse_path_obj", "save_obj", "inst_empty", "parse_string", "parse_env", "parse_path", "validate", "dump", "save", "merge", "strip", "inst", "defaults", "help", "inst2"]
+# a caller-owned namespace= with NESTED groups (what an application that pre-fills a namespace hands over)
+NSNEST = {
+    "_": [{"a": 1.0}],
+    "dd": [{"dd": {"__ns__": {"u": 1, "w": [1.0]}}}],
+    "dg": [{"dg": {"__ns__": {"u": 1, "w": [2.0]}}}],
+    "inner": [{"inner": {"__ns__": {"q": None, "v": [1.0]}}}],
+    "model": [{"model": {"__ns__": {"name": "m", "width": 1}}}],
+    "obj": [{"obj": {"__ns__": {"class_path": "dsim.simtypes.Base", "init_args": {"__ns__": {"n": 1.0, "tags": [1.0]}}}}}],
+    "sub": [{"fit": {"__ns__": {"lr": 0.5, "tags": [2.0]}}}],
+}
+KINDS = ["parse_object", "parse_object", "parse_object_ns", "parse_object_base", "parse_args", "parse_args_ns", "parse_args_ns_nodefaults", "parse_args_nodefaults", "parse_path_obj", "save_obj", "inst_empty", "parse_string", "parse_env", "parse_path", "validate", "dump", "save", "merge", "strip", "inst", "defaults", "help", "inst2"]
 
 
 def _pick(rng, table, feats):
@@ -204,6 +215,11 @@ def gen_op(rng, feats):
         op["argv"] = gen_argv(rng, feats)
         if kind == "parse_args_ns":
             op["ns"] = gen_obj(rng, feats)
+    elif kind == "parse_args_ns_nodefaults":
+        op["argv"] = gen_argv(rng, feats)
+        op["ns"] = {}
+        for _ in range(rng.randint(1, 3)):
+            op["ns"].update(_pick(rng, NSNEST, feats))
     elif kind == "parse_string":
         o = gen_obj(rng, [f for f in feats if f not in ("t", "st", "tl", "x")])
         op["text"] = json.dumps(o) if rng.random() < 0.9 else "a: [1\n"
@@ -312,6 +328,8 @@ def prepare(p, op):
         return {"args": list(op["argv"])}
     if k == "parse_args_ns":
         return {"args": list(op["argv"]), "namespace": Namespace(realise(op["ns"]))}
+    if k == "parse_args_ns_nodefaults":
+        return {"args": list(op["argv"]), "namespace": Namespace(**realise(op["ns"]))}
     if k == "parse_string":
         return {"cfg_str": op["text"]}
     if k == "parse_env":
@@ -362,6 +380,8 @@ def call(p, op, args):
         return p.parse_args(args["args"], namespace=args["namespace"])
     if k == "parse_args_nodefaults":
         return p.parse_args(args["args"], defaults=False)
+    if k == "parse_args_ns_nodefaults":
+        return p.parse_args(args["args"], namespace=args["namespace"], defaults=False)
     if k == "parse_string":
         return p.parse_string(args["cfg_str"])
     if k == "parse_env":
